@@ -29,6 +29,8 @@ SPEC['explanation'] += " T25.modtable: every table of modules left out of the pr
 SPEC['decided'] += ['unprefixed-module tables agree']
 SPEC['explanation'] += " T25.line: every call point is built with a deferred source line on every path. T9.trimmsg: ExceptionInfo never strips the rendered '<type>: <message>' text."
 SPEC['decided'] += ['deferred line on every path', 'rendered message not stripped']
+SPEC['explanation'] += ' T12.header: the header line is written on every path of to_string.'
+SPEC['decided'] += ['header on every path']
 MANIFEST = {
     'technique': 'template/regex skeleton extraction and comparison (writer vs reader tables); must-pass-through and guard-shape checks',
     'text': ('Decides that what to_string writes is what from_string\'s patterns read (same literals, same field order, same '
